@@ -1,12 +1,12 @@
 """List reasons of clean rejections for a property strategy. usage: tools/rejects.py c01 [seed] [n]"""
-import sys, os, collections, warnings, importlib
+import sys, os, collections, warnings, importlib, json
 warnings.filterwarnings("ignore"); os.environ["TQDM_DISABLE"]="1"
 sys.path.insert(0, "/verif")
 from pbt import core
 from hypothesis import given, settings, HealthCheck, Phase, seed
 mod = importlib.import_module("pbt."+sys.argv[1])
 core.install_log_capture()
-stats = collections.Counter(); n=[0]
+stats = collections.Counter(); n=[0]; INC=[]
 @seed(int(sys.argv[2]) if len(sys.argv)>2 else 1)
 @settings(max_examples=int(sys.argv[3]) if len(sys.argv)>3 else 500, database=None, deadline=None, suppress_health_check=list(HealthCheck), phases=[Phase.generate])
 @given(mod.strategy("quick"))
@@ -14,6 +14,10 @@ def t(spec):
     n[0]+=1
     ctx = core.Ctx(core.WORK/"rej", n[0])
     core.reset_global_state(ctx, spec.get("rng",0) if isinstance(spec, dict) else 0)
+    import faulthandler
+    if os.environ.get("FH"):
+        faulthandler.dump_traceback_later(int(os.environ["FH"]), exit=True)
+        json.dump(spec, open("/verif/.work/current.json","w"))
     try:
         mod.check(spec, ctx)
     except core.Reject as e:
@@ -22,8 +26,14 @@ def t(spec):
         stats["VIOLATION "+str(e)[:150]]+=1
     except core.Inconclusive:
         stats["inconclusive"]+=1
+        INC.append(spec)
     finally:
         core.finish_case(ctx)
 t()
 print(n[0], "cases")
 for k,v in stats.most_common(): print(v,k)
+
+import json
+if INC:
+    json.dump(INC, open("/verif/.work/inconclusive.json","w"))
+    print("inconclusive specs saved to .work/inconclusive.json")
